@@ -102,9 +102,15 @@ def spec_on_impl(o):
         return ("not-closed", "out is not closed after the cancellation")
     first_fail = next((i for i, p in enumerate(script) if p["fail"]), None)
     calls = o["calls"]
+    starts = o["starts"] or []
     if first_fail is not None and calls > first_fail + 1:
-        return ("call-after-fail", "the delegate is called again (%d calls) after the pass number %d failed to start: "
-                                   "a busy loop" % (calls, first_fail))
+        # the property forbids a crash or a busy loop after a pass that fails to start; retrying after the
+        # interval would be allowed (the code does not retry at all, which the model pins down)
+        for k in range(first_fail, min(calls, len(starts)) - 1):
+            if starts[k + 1] - starts[k] < o["rescan_us"] * 1000 - TOL_NS:
+                return ("busy-loop", "after the pass number %d failed to start the delegate is called again only %.3f ms "
+                                     "later (interval %.3f ms): a busy loop" % (
+                                         first_fail, (starts[k + 1] - starts[k]) / 1e6, o["rescan_us"] / 1000.0))
     gen = [r for p in script[:calls] if not p["fail"] for r in p["reqs"]]
     allr = [r for p in script if not p["fail"] for r in p["reqs"]]
     outs = o["outs"]
@@ -127,14 +133,14 @@ def spec_on_impl(o):
         return ("incomplete", "before the cancellation a request is missing or out of place (a pass is incomplete): "
                               "received %s, the passes are %s" % (before[:40], allr[:40]))
     # the next pass starts no earlier than the interval after the previous one ended
-    starts, closes = o["starts"] or [], o["closes"] or []
+    closes = o["closes"] or []
     for k in range(min(len(closes), len(starts) - 1)):
         if starts[k + 1] - closes[k] < o["rescan_us"] * 1000 - TOL_NS:
             return ("interval", "pass %d starts %.3f ms after pass %d ended, the rescan interval is %.3f ms" % (
                 k + 1, (starts[k + 1] - closes[k]) / 1e6, k, o["rescan_us"] / 1000.0))
     # passes keep coming: a run that was only cancelled once the script was used up (or a pass failed) must have
     # generated every pass before that and delivered all of them
-    if o["cancel_after"] >= (1 << 29):
+    if o["cancel_after"] >= (1 << 29) and not (first_fail is not None and calls > first_fail + 1):
         want_calls = first_fail + 1 if first_fail is not None else len(script)
         if calls < want_calls:
             return ("stops", "passes stop coming: %d delegate calls, %d expected before the cancellation" % (calls, want_calls))
